@@ -124,6 +124,7 @@ func doScan(r scanReq) (res scanRes) {
 	}
 	row := sqlittle.Row(vals)
 	before, _ := json.Marshal(encVals(vals))
+	var mutable []*[]byte
 	switch r.Kind {
 	case "conv":
 		dests := make([]interface{}, len(r.Dests))
@@ -135,6 +136,9 @@ func doScan(r scanReq) (res scanRes) {
 		}
 		for _, d := range dests {
 			res.Vals = append(res.Vals, encDest(d))
+			if bp, ok := d.(*[]byte); ok && bp != nil {
+				mutable = append(mutable, bp)
+			}
 		}
 	case "shortcut":
 		s1, err := row.ScanString()
@@ -152,6 +156,18 @@ func doScan(r scanReq) (res scanRes) {
 	}
 	after, _ := json.Marshal(encVals([]interface{}(row)))
 	res.RowUnchanged = bytes.Equal(before, after)
+	if r.Kind == "conv" && res.RowUnchanged {
+		// ... and stays what it was when the caller writes into the byte slices Scan gave it
+		snapshot := append([]jval{}, res.Vals...)
+		_ = snapshot
+		for _, d := range mutable {
+			for i := range *d {
+				(*d)[i] ^= 0x5a
+			}
+		}
+		after2, _ := json.Marshal(encVals([]interface{}(row)))
+		res.RowUnchanged = bytes.Equal(before, after2)
+	}
 	return
 }
 
